@@ -109,9 +109,23 @@ pub fn run(ctx: &mut Ctx, _replay: Option<&[String]>) {
     }
     for k in 0..ctx.scale(20, 200) {
         let (nr, nc, wc, seed) = (rng.range(2, 10), rng.range(2, 20), rng.range(1, 3), rng.next() % 1000);
-        let o = run_bin(&bin, &["peg", &nr.to_string(), &nc.to_string(), &wc.to_string(), &seed.to_string()]);
-        let want = ldpc_toolbox::peg::Config { nrows: nr, ncols: nc, wc }.run(seed).map(|h| format!("{}\n", h.alist()));
-        ctx.emit(&format!("c20 same peg-{}", k), if Ok(o.stdout.clone()) == want.map_err(|_| ()) && !o.status_nonzero { "equal" } else { "DIFFERENT" }, true, &["peg"]);
+        // every other run also asks for the girth, which goes to stderr ("Code girth = g" / "infinity" for a cycle-free result)
+        let with_girth = k % 2 == 1;
+        let mut pargs: Vec<String> = vec!["peg".into(), nr.to_string(), nc.to_string(), wc.to_string(), seed.to_string()];
+        if with_girth { pargs.push("--girth".into()); }
+        let pa: Vec<&str> = pargs.iter().map(|s| s.as_str()).collect();
+        let o = run_bin(&bin, &pa);
+        let lib = ldpc_toolbox::peg::Config { nrows: nr, ncols: nc, wc }.run(seed);
+        let girth_ok = match (&lib, with_girth) {
+            (Ok(h), true) => match h.girth() {
+                Some(g) => o.stderr.contains(&format!("Code girth = {}\n", g)),
+                None => o.stderr.contains("Code girth = infinity"),
+            },
+            _ => true,
+        };
+        let want = lib.map(|h| format!("{}\n", h.alist()));
+        ctx.emit(&format!("c20 same peg-{}", k), if Ok(o.stdout.clone()) == want.map_err(|_| ()) && !o.status_nonzero && girth_ok { "equal" } else { "DIFFERENT" }, true,
+            &[if with_girth { "peg-with-girth" } else { "peg" }]);
         let (wr, uniform) = ((nc * wc).div_ceil(nr) + 1, rng.chance(1, 2));
         let mut args: Vec<String> = vec!["mackay-neal".into(), nr.to_string(), nc.to_string(), wr.to_string(), wc.to_string(), seed.to_string()];
         if uniform { args.push("--uniform".into()); }
